@@ -181,10 +181,15 @@ def tool_build(name):
     return binp
 
 GENERATED = {"mergeprogs": "MergeProgs.lean", "lockfacts": "LockFacts.lean", "eventtables": "EventTables.lean"}
+# translated units (tools/extract/gotrans REPO <unit>): one Lean module per Go function under Generated/<unit>/
+GOTRANS = {"gocircuit": "GoCircuit", "gohopener": "GoHOpener", "gohcloser": "GoHCloser", "goconsec": "GoConsec",
+           "gorunstats": "GoRunStats", "gofbstats": "GoFbStats", "goslo": "GoSlo", "gotimedcheck": "GoTimedCheck"}
 
 def regenerate(name):
     """re-run an extractor on REPO's working tree and (re)write lean/Generated/<file> if it changed.
     returns (ok, message)"""
+    if name in GOTRANS:
+        return regenerate_unit(GOTRANS[name])
     binp = tool_build(name)
     rc, out = sh([binp, REPO], env=GOENV, timeout=600)
     if rc != 0 or "namespace CM.Generated" not in out:
@@ -196,6 +201,46 @@ def regenerate(name):
             with open(path, "w") as f:
                 f.write(out)
     return True, ("regenerated" if old != out else "unchanged")
+
+def regenerate_unit(unit):
+    """translate the unit's Go functions again.  The translator's output is a sequence of `-- FILE: <path>` sections;
+    every module is rewritten when it changed, modules no longer produced are removed.  When the translator gives up
+    (the source left the translated subset) the root module is replaced by one that cannot compile, so that nothing
+    is ever proved about a stale translation — but the check goes on to search for a failing input."""
+    binp = tool_build("gotrans")
+    p = subprocess.run([binp, REPO, unit], env=GOENV, timeout=600, stdout=subprocess.PIPE, stderr=subprocess.PIPE, text=True)
+    gdir = os.path.join(LEAN, "Generated")
+    files = {}
+    if p.returncode == 0 and "-- FILE: " in p.stdout:
+        cur = None
+        for line in p.stdout.split("\n"):
+            if line.startswith("-- FILE: "):
+                cur = line[len("-- FILE: "):].strip()
+                files[cur] = []
+            elif cur is not None:
+                files[cur].append(line)
+        files = {k: "\n".join(v).rstrip("\n") + "\n" for k, v in files.items()}
+        ok, msg = True, None
+    else:
+        why = (p.stderr or p.stdout)[-800:].replace("-/", "- /")
+        files = {unit + ".lean": "/- the translator gave up on today's source:\n%s\n-/\nnamespace CM.Generated.%s\n"
+                                 "theorem translation_failed : False := by decide\nend CM.Generated.%s\n" % (why, unit, unit)}
+        ok, msg = False, "translator gotrans %s failed: %s" % (unit, why)
+    changed = 0
+    with Lock("lake"):
+        os.makedirs(os.path.join(gdir, unit), exist_ok=True)
+        if ok:
+            for fn in os.listdir(os.path.join(gdir, unit)):
+                if os.path.join(unit, fn) not in files:
+                    os.remove(os.path.join(gdir, unit, fn)); changed += 1
+        for rel, text in files.items():
+            path = os.path.join(gdir, rel)
+            old = open(path).read() if os.path.exists(path) else None
+            if old != text:
+                with open(path, "w") as f:
+                    f.write(text)
+                changed += 1
+    return ok, (msg if not ok else ("regenerated (%d modules changed)" % changed if changed else "unchanged"))
 
 # ------------------------------------------------------------------ sequential differential (K1 + spec-vs-real)
 
